@@ -44,6 +44,24 @@ def cases(modes):
                      st.sampled_from([None] * 6 + [10 ** k - j for k in (1, 2, 3) for j in range(1, 9)]), st.booleans())
 
 
+def boundary_cases():
+    """Same seed, ids on both sides of a power of ten: two or three default-named sources with equal cycle times merge into
+    one machine, the id counter is set so that the sources' ids (and so their default names) straddle 10, 100 or 1000."""
+    def build(ns, c, pc, k, j, seed, pol, wseed, T):
+        devs = [{'k': 'S', 'n': f'S{i}', 'c': c, 'budget': 'inf', 'batch': None, 'val': 1} for i in range(ns)]
+        devs.append({'k': 'P', 'n': 'P0', 'c': pc, 'up': [f'S{i}' for i in range(ns)], 'res': None, 'alt': None, 'wod': 1,
+                     'wocap': 1, 'wocost': 1})
+        devs.append({'k': 'K', 'n': 'K0', 'c': 0, 'up': ['P0']})
+        spec = {'devs': devs, 'groups': [], 'res': {}, 'actions': [], 'T': [T], 'tb': [pol, wseed], 'maint': 1,
+                'profile': 'id-boundary', 'defnames': True}
+        # the maintainer is created first, then the sources: ids base+1, base+2, ...
+        return {'model': spec, 'seed': seed, 'mode': 'seed', 'split': [], 'id_offset': 0, 'max_processes': 1, 'n': 1,
+                'id_base': 10 ** k - 3 - j}
+    return st.builds(build, st.sampled_from([2, 3]), st.sampled_from([0.5, 1, 2]), st.sampled_from([0.5, 1, 1.5]),
+                     st.sampled_from([1, 2, 3]), st.sampled_from([0, 1]), st.integers(0, 10 ** 6),
+                     st.sampled_from(['random', 'fifo', 'lifo']), st.integers(0, 10 ** 6), st.sampled_from([8, 15, 25]))
+
+
 def valid(case):
     return e3gen.well_posed(case['model']) and case['mode'] in ('seed', 'split', 'multi', 'hash') and case['n'] >= 1
 
@@ -51,9 +69,11 @@ def valid(case):
 def phases(tier):
     if tier == 'quick':
         return [Search('seed-and-split', lambda: cases(['seed', 'split']), 400, shards=4),
+                Search('id-boundaries', boundary_cases, 60, shards=2),
                 Search('multi-process', lambda: cases(['multi']), 40, shards=1),
                 Search('hash-seed', lambda: cases(['hash']), 6, shards=1)]
     return [Search('seed-and-split', lambda: cases(['seed', 'split']), 1000, shards=16),
+            Search('id-boundaries', boundary_cases, 300, shards=8),
             Search('multi-process', lambda: cases(['multi']), 150, shards=1),
             Search('hash-seed', lambda: cases(['hash']), 60, shards=4)]
 
